@@ -32,7 +32,18 @@ def trace_lens(args):
         return {"error": "build: %s: %s" % (type(ex).__name__, ex), "seed": seed, "events": []}
     if polarized:
         from optiland.rays import PolarizationState
-        optic.set_polarization(PolarizationState(is_polarized=True, Ex=1.0, Ey=0.0, phase_x=0.0, phase_y=0.0))
+        from optiland.coatings import SimpleCoating
+        # the coatings of a polarized lens all pass some light (the random lenses often carry an opaque
+        # one somewhere): live rays then go through every coating of the polarized trace
+        for s in optic.surface_group.surfaces[1:-1]:
+            c = getattr(s, "coating", None)
+            if isinstance(c, SimpleCoating):
+                t = rnd.uniform(0.3, 0.95)
+                s.coating = SimpleCoating(transmittance=t, reflectance=(1.0 - t) * rnd.choice([1.0, rnd.uniform(0.3, 1.0)]))
+        if seed % 2:
+            optic.set_polarization(PolarizationState(is_polarized=True, Ex=1.0, Ey=0.0, phase_x=0.0, phase_y=0.0))
+        else:
+            optic.set_polarization(PolarizationState(is_polarized=False))
     events = []
     try:
         wl2 = optic.wavelengths.get_wavelengths()[:2]
@@ -61,6 +72,14 @@ def trace_lens(args):
             else:
                 rays = G.quiet(optic.trace_generic, np.zeros(n), Hy, rr * np.cos(th), rr * np.sin(th), w)
             events += RR.record_events(optic, w, ray_base=len(events), polarized=polarized, returned=rays)
+            if polarized:
+                # a paraxial bundle of the axial field as well: rays that survive every aperture, so that
+                # the coatings and media of a polarized trace are seen by live rays
+                m = 4
+                rr = 0.3 * np.sqrt(np.array([rnd.random() for _ in range(m)]))
+                th = np.array([rnd.uniform(0, 2 * math.pi) for _ in range(m)])
+                rays = G.quiet(optic.trace_generic, np.zeros(m), np.zeros(m), rr * np.cos(th), rr * np.sin(th), w)
+                events += RR.record_events(optic, w, ray_base=len(events), polarized=polarized, returned=rays)
     except Exception as ex:
         return {"error": "trace: %s: %s" % (type(ex).__name__, ex), "seed": seed, "events": [], "meta": meta}
     meta["polarized"] = polarized
@@ -90,7 +109,7 @@ def corrupt(e):
 def main(ctx):
     quick = ctx.tier == "quick"
     nlens = 70 if quick else 1500
-    tasks = [(ctx.seed * 104729 + i, 5 if quick else 10, i % 7 == 6) for i in range(nlens)]
+    tasks = [(ctx.seed * 104729 + i, 5 if quick else 10, i % 7 == 6 or i % 5 == 2) for i in range(nlens)]
     with ProcessPoolExecutor(max_workers=16) as ex:
         results = list(ex.map(trace_lens, tasks, chunksize=4))
     events, owner = [], {}
@@ -108,7 +127,7 @@ def main(ctx):
             events.append(e)
     verdicts = ctx.validate("Trace_RayStep", events, shards=16, env={"RAYSTEP_MODE": "intensity"},
                             count_traces=nok, group="ray")
-    stats = {"clipped": 0, "attenuated": 0, "coated": 0, "dark_in": 0, "polarized": 0}
+    stats = {"clipped": 0, "attenuated": 0, "coated": 0, "dark_in": 0, "polarized": 0, "polarized_live_coated": 0}
     for e in events:
         i0, i = undy(e["i0"]), undy(e["i"])
         if e["ap"][0] and i == 0 and i0 != 0:
@@ -121,6 +140,8 @@ def main(ctx):
             stats["dark_in"] += 1
         pol = owner[e["id"]]["meta"]["polarized"]
         stats["polarized"] += pol
+        if pol and e["tau"] != RR.ONE and i == i and i > 0:
+            stats["polarized_live_coated"] += 1
         for clause in verdicts[e["id"]]:
             ctx.report(clause, {"polarized": pol, "has_aperture": e["ap"][0], "absorbing": not e["kz"]},
                        "surface %d, lens seed %d (%s): clause %s fails (i0=%r, i=%r, returned=%r)"
@@ -130,6 +151,8 @@ def main(ctx):
     ctx.extra["events"] = len(events)
     ctx.extra["event_classes"] = stats
     ctx.extra["lenses"] = nok
+    if stats["polarized_live_coated"] == 0:
+        raise T.MachineryError("no live ray of a polarized trace met a simple coating: the polarized entry point was not exercised")
     if events:
         e = events[len(events) // 3]
         ctx.sample({"surface": e["k"], "i0": float(undy(e["i0"])), "i": float(undy(e["i"])), "tau": float(undy(e["tau"])),
